@@ -158,3 +158,10 @@ def wf_response(spec: dict, d: bytes) -> bool:
         return len(d) >= 9 and len(d) == d[6] + 9 and s16(d[4] * 256 + d[5]) == spec['rtype'] \
             and sum(d[:-2]) & 0xFFFF == d[-2] * 256 + d[-1]
     raise ValueError(spec)
+
+
+def apply_mbap(frame: bytes, delta: int) -> bytes:
+    """the known firmware quirk: a Modbus/TCP answer whose MBAP length field (bytes 4-5) is off by `delta` (the library ignores that field)"""
+    if not delta or len(frame) < 6: return frame
+    n = (frame[4] * 256 + frame[5] + delta) & 0xFFFF
+    return frame[:4] + bytes([n >> 8, n & 255]) + frame[6:]
